@@ -315,6 +315,7 @@ CheckCb(tk, e, tk2) ==
            "C16", "an action inside a callback did not produce exactly its log record")
     \* ---- plan bookkeeping visible in every view
     \cup V0(PlanActsOK(pn, e.acts, 1), "C10", "append / remove result disagrees with the exact task capacity")
+    \cup V0(e.pfl = 1, "C10", "the plan's iterators, first(), last() and emptiness test (mutable and const forms) do not describe one sequence")
     \cup V(CtrlKind(e.m) >= 1 /\ ~step /\ tk.incall /\ tk.dpos > 0 /\ ~(IsPlanCb(tk.dm) /\ tk.dpos = Len(SubOrder(tk.dm, tk.ds))) /\ HasPlanAct(tk.lastacts)
              => pn = pb,
            "C10", "the plan seen after plan edits is not the sequence of tasks appended and not removed")
